@@ -13,7 +13,7 @@ RULE = ('identifier-tagged objects (value = ravelled position, tagged derivative
         'from every entry kind in every position; distinct = distinct request line; non-trivial = the index contains an '
         'array entry, a masked/out-of-range entry or the object has masked elements')
 MANIFEST = {
-    'text': 'Kernel-checked theorems (PMV/Props/C09.lean, 31) about a code-shaped Lean model of polymath/extensions/indexer.py '
+    'text': 'Kernel-checked theorems (PMV/Props/C09.lean, 30) about a code-shaped Lean model of polymath/extensions/indexer.py '
             '(_prep_index statement by statement, _prep_scalar_index, __getitem__ with every mask-representation branch, '
             'relocation of array axes, derivative recursion, iteration) on top of a denotational model of NumPy basic + '
             'advanced indexing, relative to a per-element specification sel. End-to-end refinements getitem = sel: shapeless '
@@ -31,9 +31,8 @@ MANIFEST = {
     'design': 'DESIGN.md §3 C09, DESIGN.d/C09.md',
     'technique': 'Lean 4 proof (induction over index lists linking absolute axis bookkeeping to progressive consumption; case analysis over representations) + model/code correspondence + NumPy kernel suite + spec suite',
     'note': 'NOT proved end to end: arrays of different broadcastable shapes, integers ahead of '
-            'the first array entry, shapes with empty axes in the array theorems (T1 + oracle only); see DESIGN.d/C09.md. Open findings '
-            'KF-C09-1 (integer index on a zero-length axis raises IndexError) and KF-C09-2 (already masked shapeless object: '
-            'derivatives not masked by a masked Boolean index). Five indexing defects of the pinned tree repaired.',
+            'the first array entry, shapes with empty axes in the array theorems (T1 + oracle only); see DESIGN.d/C09.md. Open finding '
+            'KF-C09-1 (integer index on a zero-length axis raises IndexError). Five indexing defects of the pinned tree repaired.',
 }
 ASSUMPTIONS = ['slices are abstracted as the list of source coordinates they select (polymath passes them to NumPy untouched)',
                'NumPy semantics = PMV/Model/NpIndex.lean, validated by the kernel suite of this run (not proved)',
